@@ -604,6 +604,41 @@ def check_concat_and_moments(ctx, w):
             got = [sorted(w.desc(o)['id'] for o in m.operations) for m in out.moments]
             if got != want:
                 ctx.report_witness(f'concat:layout:{name.split("(")[0]}', 'the moment layout of concat_ragged differs from the model (alignment / overlap)', dict(rep, impl_out=[got], spec_out=[want]))
+    # Circuit.zip: moment-by-moment union for every alignment, or ValueError when two operations of one moment share a qubit
+    reqs, meta = [], []
+    for it in range(n):
+        g = Gen(rng)
+        cs = []
+        for ci in range(rng.choice([2, 2, 3, 1])):
+            ms = [g.moment() for _ in range(rng.randint(0, 4))]
+            if rng.random() < 0.6:
+                # keep the circuits on separate qubits most of the time, so that the zip usually succeeds
+                ms = [[o for o in m if all(x % 3 == ci % 3 for x in o['q'])] for m in ms]
+            cs.append(cirq.Circuit([cirq.Moment([w.op(o) for o in m]) for m in ms]))
+        align = rng.choice([cirq.Alignment.LEFT, cirq.Alignment.RIGHT, cirq.Alignment.FIRST])
+        reqs.append({'p': 'C05', 'op': 'zip', 'circuits': [w.circuit_desc(c) for c in cs], 'align': align.name.lower()})
+        meta.append((cs, align))
+    for (cs, align), want in zip(meta, ctx.driver.ask(reqs)):
+        frozen = [c.freeze() for c in cs]
+        spell = rng.choice([align, align.name.lower()])
+        ways = {
+            'Circuit.zip': lambda: cirq.Circuit.zip(*cs, align=spell),
+            'FrozenCircuit.zip': lambda: cirq.FrozenCircuit.zip(*frozen, align=spell),
+            'circuit.zip(bound)': lambda: cs[0].zip(*cs[1:], align=spell),
+            'frozen.zip(bound)': lambda: frozen[0].zip(*frozen[1:], align=spell),
+        }
+        ctx.case(['zip', [repr(c) for c in cs], str(align)], len(cs) >= 2 and all(len(c) for c in cs))
+        for name, f in ways.items():
+            ctx.count('call', 'zip:' + name)
+            ctx.count('zip_outcome', 'error' if isinstance(want, str) else 'ok')
+            rep = {'lines': [{'circuits': [repr(c) for c in cs], 'align': str(spell), 'entry_point': name}], 'theorem_or_correspondence': 'Model.C05.zipCircuits'}
+            try:
+                out = f()
+                got = [sorted(w.desc(o)['id'] for o in m.operations) for m in out.moments]
+            except ValueError:
+                got = 'ValueError'
+            if got != want:
+                ctx.report_witness(f'zip:layout:{name.split("(")[0]}', 'Circuit.zip differs from the model (alignment, padding or overlap detection)', dict(rep, impl_out=[got], spec_out=[want]))
     # moment entry points
     q = w.qs
     for _ in range(n):
